@@ -1,6 +1,7 @@
 package main
 
 import (
+	"runtime"
 	"context"
 	"fmt"
 	"os"
@@ -32,7 +33,21 @@ type solveOpts struct {
 	only     map[string]bool
 }
 
+// procSem bounds the number of solver processes that run at the same time,
+// so that timeouts measure solver effort and not scheduling delay.
+var procSem = make(chan struct{}, maxProcs())
+
+func maxProcs() int {
+	n := runtime.NumCPU()
+	if n < 2 {
+		return 2
+	}
+	return n
+}
+
 func runSolver(sd solverDef, file string, timeout int) (string, string, float64) {
+	procSem <- struct{}{}
+	defer func() { <-procSem }()
 	ctx, cancel := context.WithTimeout(context.Background(), time.Duration(timeout+2)*time.Second)
 	defer cancel()
 	args := sd.cmd(file, timeout)
@@ -151,20 +166,26 @@ func solveOne(o *Obligation, idx int, dir string, opts solveOpts) {
 		o.Status, o.Backend = "discharged", "govc-trivial"
 		return
 	}
-	// stage 1: fast attempt with z3-new
-	quick := 3
+	// stage 1: fast attempt with z3-new (skipped for bit-vector/floating-point
+	// queries, where cvc5 is usually the one that answers)
+	quick := 2
 	if opts.timeout < quick {
 		quick = opts.timeout
 	}
-	ans, out, dt := runSolver(solvers[0], file, quick)
-	o.Answers[solvers[0].name] = ans
-	o.Time += dt
-	if ans == want && !opts.agree {
-		o.Status, o.Backend = "discharged", solvers[0].name
-		return
-	}
-	if ans == "sat" && !o.Vacuity {
-		o.Model = trimModel(out)
+	ans := "skipped"
+	if !o.ctx.bv {
+		var out string
+		var dt float64
+		ans, out, dt = runSolver(solvers[0], file, quick)
+		o.Answers[solvers[0].name] = ans
+		o.Time += dt
+		if ans == want && !opts.agree {
+			o.Status, o.Backend = "discharged", solvers[0].name
+			return
+		}
+		if ans == "sat" && !o.Vacuity {
+			o.Model = trimModel(out)
+		}
 	}
 	if (ans == "sat" || ans == "unsat") && ans != want && !opts.agree {
 		// a definite opposite answer: still ask the others (a solver bug or
@@ -178,12 +199,16 @@ func solveOne(o *Obligation, idx int, dir string, opts solveOpts) {
 	rc := make(chan r, len(solvers))
 	n := 0
 	for i, sd := range solvers {
-		if i == 0 && quick >= opts.timeout && ans != "timeout" {
+		if i == 0 && quick >= opts.timeout && ans != "timeout" && ans != "skipped" {
 			continue
 		}
 		n++
+		to := opts.timeout
+		if o.ctx.bv && to < 40 {
+			to = 40 // bit-precise float queries are slower; keep a wide margin
+		}
 		go func(sd solverDef) {
-			a, out, dt := runSolver(sd, file, opts.timeout)
+			a, out, dt := runSolver(sd, file, to)
 			rc <- r{sd.name, a, out, dt}
 		}(sd)
 	}
